@@ -389,9 +389,11 @@ def hiLoop (ap : Nat → Str → Nat → St → Option (Str × Bool × Nat × St
       | some (d, m, si', st') => hiLoop ap g d (if m then pi else pi + 1) si' st'
     else some (data, st)
 
-/-- fuel of the pattern loop on a text of length `n`: 16 index increments, and every other iteration either moves
-    `startIndex` past a `\` / `[` of the text or consumes at least one character of it into a stash entry -/
-def loopFuel (n : Nat) : Nat := 16 * (n + 2)
+/-- fuel of the pattern loop on a text of length `n`: 16 index increments; every other iteration either moves
+    `startIndex` past a `\` / `[` of the text (a match whose node is `None`) or consumes at least one character of it
+    into a stash entry — which resets `startIndex` to 0, so the loop is quadratic in the worst case
+    (`"\\a" * k ++ "\\*" * k` costs about k² iterations); the bound is therefore quadratic -/
+def loopFuel (n : Nat) : Nat := 16 * (n + 2) * (n + 2)
 
 /-- `__handleInline(data, patternIndex)` for a non-atomic string; fuel = nesting depth of the calls -/
 def handleInline (cfg : Cfg) : Nat → Str → Nat → St → Option (Str × St)
